@@ -1678,6 +1678,10 @@ def simplify_call(fname, recv, args, kw):
                  "numpy.power", "numpy.hypot", "numpy.sqrt", "numpy.abs", "numpy.absolute"):
         # a numpy ufunc converts list arguments to arrays itself: np.subtract([a, b], [c, d]) is element-wise
         args = tuple(T.arr(a[1]) if a[0] == "seq" and not any(x[0] == "star" for x in a[1]) else a for a in args)
+    if kw and fname in ("numpy.subtract", "numpy.add", "numpy.multiply", "numpy.divide", "numpy.true_divide", "numpy.negative", "numpy.square",
+                        "numpy.power", "numpy.hypot", "numpy.sqrt"):
+        # `where=` / `out=` make the ufunc a different function (masked evaluation): it is not the plain arithmetic operation
+        return ("call", fname, args, kw)
     if fname in ("numpy.hypot", "math.hypot") and len(args) == 2:
         return T.sqrt(T.add(T.mul(args[0], args[0]), T.mul(args[1], args[1])))
     if fname == "numpy.square" and len(args) == 1:
